@@ -413,7 +413,8 @@ Inductive path :=
 | PGrow (raw : list Z) (stakers : list (Z * Z)) (after : list Z)  (* the same through GrowRoundID (what EndBlock calls) *)
 | PSlash (slash_usd value : Z)
 | PAvsStat (group : list result) (known : bool)
-| PSubmit (present : bool) (siglen : Z) (window : bool)           (* window: still inside the response period *)
+| PSubmit (present : bool) (siglen : Z) (window : bool) (snapshot : bool)
+    (* window: still inside the response period; snapshot: the operator is in the task's opt-in snapshot *)
 | PAlloc (reward : Z) (apps : list (nat * Z))
 | PSlashUndel (native : bool) (amount : Z) (props : list Z) (actuals : list Z)
     (* one pending undelegation, the proportions of the slashes that reached it (as stored in the slash records),
@@ -448,8 +449,8 @@ Definition check_case (c : case) : option nat :=
     | PAvsStat g known =>
         (* the hook itself reports nothing: a skipped group and a processed group are both "ok" *)
         match avs_stat_gen DErr g known with Panic => false | _ => rclass_eqb (c_obs c) ROk end
-    | PSubmit present l window =>
-        rclass_eqb (if window then class_of (submit_gen DErr present l []) else RErr) (c_obs c)
+    | PSubmit present l window snapshot =>
+        rclass_eqb (if window && snapshot then class_of (submit_gen DErr present l []) else RErr) (c_obs c)
     | PAlloc reward apps => rclass_eqb (class_of (alloc reward apps)) (c_obs c)
     | PSlashUndel native amount ps actuals =>
         zlist_eqb (slash_undel_all amount amount ps) actuals &&
